@@ -33,7 +33,9 @@ REQUIRED_MONITORS = ["cell-functional-exact", "facet-functional-exact", "subdoma
                      "copies-agree"]
 REQUIRED_REACH = ["negative-det-cells", "non-affine-cells", "default-order", "facet-subset", "rigid-motion",
                   "refined-copy", "renumbered-copy", "degree-beyond-strength-skipped",
-                  "equal-size-subdomains-on-one-mesh", "overlapping-tags-union", "overlapping-facet-tags-union"]
+                  "equal-size-subdomains-on-one-mesh", "overlapping-tags-union", "overlapping-facet-tags-union",
+                  "input:small-units", "input:float32-vertices", "input:non-contiguous-arrays",
+                  "interior-facet-basis-with-order"]
 ASSUMPTIONS = ["vertex coordinates are taken as the exact rational values of the doubles stored in the mesh",
                "nodal bases of the exact reference use the nearest small rationals (denominator <= 64) to the "
                "element's tabulated reference nodes"]
@@ -106,6 +108,42 @@ P1ELEM = {"line": "ElementLineP1", "tri": "ElementTriP1", "quad": "ElementQuad1"
 MAXORDER = {"line": 12, "tri": 19, "quad": 10, "tet": 8, "hex": 7, "wedge": 7}
 
 
+def input_variant(ctx, rng, mc):
+    """The same rational mesh handed to the constructor in other units / array types: micrometre-size cells (power
+    of two scaling keeps every number exact), float32 vertex arrays (only when every coordinate is a float32),
+    non-contiguous arrays."""
+    m = mc.mesh
+    r = rng.random()
+    p, t = np.asarray(m.p), np.asarray(m.t)
+    desc = dict(mc.desc)
+    if r < 0.5:
+        return mc
+    if r < 0.7:
+        p2, t2 = p * 2.0 ** -24, t
+        desc["units"] = "2^-24"
+        ctx.reached("input:small-units")
+    elif r < 0.85:
+        if mc.kind in ("line", "tri", "tet") and float(np.abs(p).max()) < 2.0:
+            # use all 24 bits: differences and products of such coordinates are not float32 numbers any more
+            # (relative perturbation: every coordinate a full 24-bit mantissa at its own exponent)
+            p = (p * (1.0 + rng.integers(-64, 65, size=p.shape) * 2.0 ** -20)).astype(np.float32).astype(np.float64)
+            desc["perturbed"] = "relative 2^-14, rounded to float32"
+        p32 = p.astype(np.float32)
+        if not np.array_equal(p32.astype(np.float64), p):
+            return mc
+        p2, t2 = p32, t
+        desc["vertex_dtype"] = "float32"
+        ctx.reached("input:float32-vertices")
+    else:
+        buf = np.zeros((p.shape[0], 2 * p.shape[1]))
+        buf[:, ::2] = p
+        p2, t2 = buf[:, ::2], np.asfortranarray(t.astype(np.int64))
+        desc["arrays"] = "strided/F-order/int64"
+        ctx.reached("input:non-contiguous-arrays")
+    return G.MeshCase(type(m)(p2, t2), mc.kind, mc.order, desc, affine_cells=mc.affine_cells, straight=mc.straight,
+                      planar_faces=mc.planar_faces)
+
+
 def gen_mesh(ctx, rng, kind, k):
     mc = G.first_order(rng, kind)
     tries = 0
@@ -121,7 +159,7 @@ def gen_mesh(ctx, rng, kind, k):
         mc = G.MeshCase(type(mc.mesh)(p, np.array(mc.mesh.t)), kind, 1, dict(mc.desc, mirrored=True),
                         affine_cells=mc.affine_cells, planar_faces=mc.planar_faces)
         geom += "-mirrored"
-    return mc, geom
+    return input_variant(ctx, rng, mc), geom
 
 
 def rand_exps(rng, d, n, count):
@@ -261,10 +299,18 @@ def facet_functionals(ctx, k, kind):
         mesh = mesh.with_boundaries({"a": A, "b": B})
         variants.append(("tag-list", ["a", "b"]))
         variants.append(("tag-tuple", ("b", "a", "b")))
+    itf = np.nonzero(np.asarray(mesh.f2t)[1] >= 0)[0]
+    if itf.size and kind != "line":
+        variants.append(("interior-side0", "interior0"))
+        variants.append(("interior-side1", "interior1"))
     for which, facets in variants:
-        fb = skfem.FacetBasis(mesh, elem(), intorder=n) if facets is None else \
-            skfem.FacetBasis(mesh, elem(), facets=facets, intorder=n)
-        flist = mesh.boundary_facets() if facets is None else facets
+        if isinstance(facets, str) and facets.startswith("interior"):
+            fb = skfem.InteriorFacetBasis(mesh, elem(), intorder=n, side=int(facets[-1]))
+            ctx.reached("interior-facet-basis-with-order")
+        else:
+            fb = skfem.FacetBasis(mesh, elem(), intorder=n) if facets is None else \
+                skfem.FacetBasis(mesh, elem(), facets=facets, intorder=n)
+        flist = mesh.boundary_facets() if facets is None else (itf if isinstance(facets, str) and facets.startswith("interior") else facets)
         if which.startswith("tag-"):
             flist = np.union1d(A, B)
             ctx.reached("overlapping-facet-tags-union")
@@ -341,7 +387,7 @@ def affine_mesh(ctx, rng, kind, k):
         p[0] = -p[0]
         mc = G.MeshCase(type(mc.mesh)(p, np.array(mc.mesh.t)), kind, 1, dict(mc.desc, mirrored=True))
         ctx.reached("negative-det-cells")
-    return mc
+    return input_variant(ctx, rng, mc)
 
 
 def local_matrices(ctx, k, kind):
@@ -568,6 +614,10 @@ def copies(ctx, k, kind):
             ctx.reached("refined-copy")
     # rigid motion: the moved mesh against its own exact value; the measure is invariant
     R, shift = G.rigid_motion(rng, d)
+    # the shift in units of the mesh (a power of two): a mesh of micrometre size moved by O(1) would be a different,
+    # badly conditioned problem (coordinates known to 1e-16 absolute, cells 1e-7 wide), not the same integral
+    ext = float(np.ptp(np.asarray(mesh.p), axis=1).max())
+    shift = shift * 2.0 ** np.floor(np.log2(ext)) if ext > 0 else shift
     p4 = (R @ np.asarray(mesh.p)) + shift
     m4 = type(mesh)(p4, np.asarray(mesh.t)[:nv].astype(np.int64))
     r4 = exact_cells(m4, kind, poly, range(m4.t.shape[1]), n)
